@@ -331,13 +331,18 @@ def check(case):
   if res['ret'] is True and res['outcome'] != 'PASS':
     r.bad('C04/return-value', 'execute() returned True with outcome %s' % res['outcome'])
   # O6 overlap of killable bodies
-  open_ = None
+  open_, open_t = None, 0.0
   for i, e in enumerate(log):
     if e[0] == 'start' and tag != 'swallow':
+      if open_ is not None and res['times'][i] >= open_t + 179.0:
+        # the open body was not cancelled by an abort but ran into its phase timeout (default 180 s): it is abandoned
+        # by design (property C12) and the executor moves on without waiting for it
+        r.classes.append('timeout-abandoned')
+        open_ = None
       if open_ is not None:
         r.bad('C04/bodies-overlap', '%s plan=%r: %r started while %r was still running; log=%r' % (tag, case.get('plan'), e[1], open_, log))
         break
-      open_ = e[1]
+      open_, open_t = e[1], res['times'][i]
     elif e[0] == 'end' and e[1] == open_:
       open_ = None
   # O7 nothing starts after the record was handed out
